@@ -15,7 +15,8 @@
 (* action = gas fees arriving at the governance address), candidate fee 0.                          *)
 (* Premise of C11 (DESIGN.md): the governance address holds the genesis peers' InitPos.             *)
 (*                                                                                                *)
-(* Not modelled (growth plan): updateConfig, updateGlobalParam*, setPromisePos, withdrawOng,        *)
+(* Not modelled (growth plan): updateConfig, updateGlobalParam, the other GlobalParam2 fields,      *)
+(* setPromisePos, withdrawOng,                                                                     *)
 (* the transferFrom variants, several peers per call, registration by a non-designated address.     *)
 EXTENDS Integers, Sequences, FiniteSets, TLC
 
@@ -25,8 +26,9 @@ CONSTANTS
     OwnerOf,                    \* [Peers -> Addrs]
     PkRank,                     \* [Peers -> Nat]: order of the hex public keys (tie-break of the stake sort)
     K,                          \* config.K
-    PosLimit, Penalty, A, B, MinInitStake, MinAuth, DappFee, SplitNum,   \* GlobalParam / GlobalParam2
-    HasDapp,                    \* gas address set
+    PosLimit, Penalty, A, B, MinInitStake, MinAuth, DappFee, SplitNum,   \* GlobalParam / GlobalParam2 (DappFee: value after set-up)
+    HasDapp,                    \* gas address set during set-up
+    GasVals, DappVals,          \* argument domains of the two admin actions setGasAddress / updateGlobalParam2
     GenesisPos,                 \* [GenPeers -> Nat]
     GenesisMax,                 \* MaxAuthorize set for the genesis peers during set-up
     Fund,                       \* [Addrs -> Nat]: ONT of every account after set-up
@@ -53,12 +55,14 @@ VARIABLES
     attr,      \* [Peers -> [t, t1, t2, s, s1, s2, max]]   PeerAttributes
     promise,   \* [Peers -> Int]   PromisePos (-1: no record)
     black,     \* blacklist
+    dappFee,   \* GlobalParam2.DappFee (updateGlobalParam2)
+    hasDapp,   \* the gas address (setGasAddress) is a non-empty address (the account "dapp")
     nops, act  \* bound and history variable (not part of the VIEW)
 
-vars == <<pool, prev, au, stake, pen, ont, ong, fee, splitFee, attr, promise, black, nops, act>>
-view == <<pool, prev, au, stake, pen, ont, ong, fee, splitFee, attr, promise, black>>
+vars == <<pool, prev, au, stake, pen, ont, ong, fee, splitFee, attr, promise, black, dappFee, hasDapp, nops, act>>
+view == <<pool, prev, au, stake, pen, ont, ong, fee, splitFee, attr, promise, black, dappFee, hasDapp>>
 State == [pool |-> pool, prev |-> prev, au |-> au, stake |-> stake, pen |-> pen, ont |-> ont, ong |-> ong, fee |-> fee,
-          splitFee |-> splitFee, attr |-> attr, promise |-> promise, black |-> black]
+          splitFee |-> splitFee, attr |-> attr, promise |-> promise, black |-> black, dappFee |-> dappFee, hasDapp |-> hasDapp]
 
 \* status values of governance.go
 RegSt == 0  CandSt == 1  ConsSt == 2  QuitConsSt == 3  QuitingSt == 4  BlackSt == 5  NoneSt == -1
@@ -121,6 +125,7 @@ Init ==
     /\ attr = [p \in Peers |-> IF p \in GenPeers THEN [DefAttr EXCEPT !.max = GenesisMax] ELSE DefAttr]
     /\ promise = [p \in Peers |-> -1]
     /\ black = {}
+    /\ dappFee = DappFee /\ hasDapp = HasDapp
     /\ nops = 0
     /\ act = [name |-> "Init"]
 
@@ -134,7 +139,8 @@ Idx(pl, S, p) == Cardinality({q \in S : Before(pl, q, p)})
 
 Split(cur, pv, auth, at, balance, sfee) ==
     LET income == balance - sfee
-        dapp == IF HasDapp THEN (income * DappFee) \div 100 ELSE 0
+        \* "fee split to dapp address": DappFee percent of the income, 0 when no gas address is set; the nodes split the rest
+        dapp == IF hasDapp THEN (income * dappFee) \div 100 ELSE 0
         nodeIncome == income - dapp
         Cands == Active(pv)
         Stk(p) == pv[p].total + pv[p].init
@@ -240,7 +246,8 @@ CommitCore(pl, pv, auth, stk, pn, ontB, ongB, fe, sfee, at) ==
 
 ----------------------------------------------------------------------------
 (* Actions.  XxxOK = the success guard as coded; XxxDo = the effect. *)
-Step(a) == /\ nops' = nops + 1 /\ act' = a
+StepAdm(a) == /\ nops' = nops + 1 /\ act' = a
+Step(a) == StepAdm(a) /\ UNCHANGED <<dappFee, hasDapp>>    \* only the two admin actions change these
 
 RegisterOK(p, a, x) ==
     /\ x >= 1 /\ a = OwnerOf[p] /\ p \notin black /\ pool[p].st = NoneSt
@@ -379,6 +386,14 @@ TransferPenalty(p, a) ==
     /\ pen' = [pen EXCEPT ![p] = 0]
     /\ UNCHANGED <<pool, prev, au, stake, ong, fee, splitFee, attr, promise, black>>
 
+\* setGasAddress (admin): x = 1 the account "dapp", x = 0 the empty address
+SetGas(x) == /\ hasDapp' = (x = 1) /\ UNCHANGED dappFee
+             /\ UNCHANGED <<pool, prev, au, stake, pen, ont, ong, fee, splitFee, attr, promise, black>>
+\* updateGlobalParam2 (admin) with the configuration's MinAuthorizePos / CandidateFeeSplitNum and DappFee = x (the code has no upper bound)
+SetDappFeeOK(x) == SplitNum >= K
+SetDappFee(x) == /\ SetDappFeeOK(x) /\ dappFee' = x /\ UNCHANGED hasDapp
+                 /\ UNCHANGED <<pool, prev, au, stake, pen, ont, ong, fee, splitFee, attr, promise, black>>
+
 \* a call whose guard is false: the transaction fails, nothing changes
 Failing(a) == /\ (WithInvalid \/ nops < Len(Script)) /\ Step([a EXCEPT !.ok = FALSE])
               /\ UNCHANGED <<pool, prev, au, stake, pen, ont, ong, fee, splitFee, attr, promise, black>>
@@ -426,6 +441,8 @@ Next ==
        \/ \E ad \in Addrs : On("WithdrawFee") /\ fee[ad] > 0 /\
             LET a == [name |-> "WithdrawFee", a |-> ad, ok |-> TRUE]
             IN IF WithdrawFeeOK(ad) THEN WithdrawFee(ad) /\ Step(a) ELSE Failing(a)
+       \/ \E x \in GasVals : On("SetGas") /\ SetGas(x) /\ StepAdm([name |-> "SetGas", x |-> x, ok |-> TRUE])
+       \/ \E x \in DappVals : On("SetDappFee") /\ SetDappFee(x) /\ StepAdm([name |-> "SetDappFee", x |-> x, ok |-> TRUE])
        \/ \E p \in Peers, ad \in Authorizers : On("TransferPenalty") /\ pen[p] > 0 /\
             LET a == [name |-> "TransferPenalty", p |-> p, a |-> ad, ok |-> TRUE]
             IN IF TransferPenaltyOK(p, ad) THEN TransferPenalty(p, ad) /\ Step(a) ELSE Failing(a)
@@ -446,6 +463,8 @@ Do(a) ==
       [] a.name = "SetCost" -> IF SetCostOK(a.p, a.a, <<a.x, a.y>>) THEN SetCost(a.p, a.a, <<a.x, a.y>>) /\ Step(a) ELSE Failing(a)
       [] a.name = "Fee" -> Fee(a.x) /\ Step(a)
       [] a.name = "WithdrawFee" -> IF WithdrawFeeOK(a.a) THEN WithdrawFee(a.a) /\ Step(a) ELSE Failing(a)
+      [] a.name = "SetGas" -> SetGas(a.x) /\ StepAdm(a)
+      [] a.name = "SetDappFee" -> IF SetDappFeeOK(a.x) THEN SetDappFee(a.x) /\ StepAdm(a) ELSE Failing(a)
       [] a.name = "TransferPenalty" -> IF TransferPenaltyOK(a.p, a.a) THEN TransferPenalty(a.p, a.a) /\ Step(a) ELSE Failing(a)
 
 \* a scripted prefix (the same calls the harness makes first), then free exploration
